@@ -775,6 +775,8 @@ nnls_normal_block3(cholmod_sparse *AtA, cholmod_dense *Atb, int verbose,
         int i, j, k;
         int iter, max_iter, solves, residual_calcs;
         int feasible;
+        /* Is x the minimizer on the current passive set? */
+        int at_solution = true;
         clock_t t0, t1;
         double kkt_tolerance, y_min, residual;
 
@@ -915,10 +917,15 @@ nnls_normal_block3(cholmod_sparse *AtA, cholmod_dense *Atb, int verbose,
                                 y_min = ((double *)(y->x))[H2[i]];
 
                 /*
-                 * If we've satisfied the KKT conditions, we're done. 
+                 * If we've satisfied the KKT conditions, we're done, unless
+                 * the last step was a line search which stopped short of
+                 * the solution on the passive set (possibly binding
+                 * coefficients which are still waiting in H1 to be removed
+                 * from it): in that case the solution on the remaining
+                 * passive set has not been computed yet.
                  */
 
-                if (nH2 == 0) break;
+                if (nH2 == 0 && nH1 == 0 && at_solution) break;
 
                 ninf = nH1 + nH2;
 
@@ -1023,6 +1030,7 @@ nnls_normal_block3(cholmod_sparse *AtA, cholmod_dense *Atb, int verbose,
                                             ((double*)(x_F->x))[i];
                                 cholmod_l_free_dense(&x_F, c);
                                 feasible = true;
+                                at_solution = true;
 
                                 if (verbose)
                                         printf("\tSolution entirely "
@@ -1089,6 +1097,7 @@ nnls_normal_block3(cholmod_sparse *AtA, cholmod_dense *Atb, int verbose,
                                 feasible = walk_descents(AtA_F, Atb_F, x, x_F,
                                     F, &nF, H1, &nH1, &residual,
                                     &residual_calcs, verbose, c);
+                                at_solution = false;
 
                         } /* if (nF_inf == 0) */
 
